@@ -699,6 +699,25 @@ func (c *SpecCtx) call(x *SExpr) Value {
 			cs = append(cs, fmt.Sprintf("(forall ((|$r| Int)) (! (=> (< |$r| %s) (= (select %s |$r|) (select %s |$r|))) :pattern ((select %s |$r|))))", c.old.next, a1, a0, a1))
 		}
 		return boolV(mkAnd(cs...))
+	case "content":
+		// content(b): the byte string held by slice b, as an uninterpreted function of the
+		// backing array, offset and length (equal arguments give equal contents)
+		b, ok := c.eval(x.Args[0]).(*Slice)
+		if !ok {
+			specFail("content needs a byte slice")
+		}
+		et := b.Typ.Underlying().(*types.Slice).Elem()
+		names, sorts, leaves := e.elemArrays(et)
+		if len(names) != 1 {
+			specFail("content needs a slice of scalars")
+		}
+		f := q("content!" + sanitize(leaves[0].Sort))
+		if !e.declared[f] {
+			e.declared[f] = true
+			e.sess.Cmd("(declare-fun " + f + " ((Array Int " + leaves[0].Sort + ") Int Int) Int)")
+		}
+		arr := e.heapGet(c.st, names[0], sorts[0])
+		return scInt(sx(f, mkSelect(arr, b.Arr), b.Off, b.Len))
 	case "disjoint":
 		a, ok1 := c.eval(x.Args[0]).(*Slice)
 		b, ok2 := c.eval(x.Args[1]).(*Slice)
